@@ -35,6 +35,8 @@ type CaseC16 struct {
 	// the documented default (food.yaml / log.yaml); it must still win over the configuration file
 	DefaultSpelling bool   `json:"default_spelling,omitempty"`
 	Only            string `json:"only,omitempty"`
+	// Order is the map-order schedule: which source wins must not depend on the order in which a table of settings is walked
+	Order OrderPlan `json:"order"`
 }
 
 var c16Settings = []string{"db", "log", "datefmt", "depth", "today"}
@@ -68,6 +70,7 @@ func genC16(thorough bool) func(t *rapid.T) Case {
 		c.NDFalse = rapid.IntRange(0, 3).Draw(t, "nd_false") == 3
 		c.DefaultSpelling = rapid.IntRange(0, 3).Draw(t, "default_spelling") == 3
 		c.CfgSymlink = rapid.IntRange(0, 2).Draw(t, "cfg_symlink") == 2
+		c.Order = OrderPlan{Mode: rapid.SampledFrom([]string{"asc", "desc", "shuffle", "rotate"}).Draw(t, "order"), Seed: rapid.Uint64().Draw(t, "order_seed"), Arg: 1}
 		return c
 	}
 }
@@ -109,6 +112,9 @@ func chainBook(marker string, refs int) string {
 func (c *CaseC16) build(cell cellC16, argvTail []string, logLayout string, chainRefs int, locator string) World {
 	w := noFaultWorld()
 	w.Zone, w.ClockUnixNano = c.Zone, c.Clock
+	if c.Order.Mode != "" {
+		w.Order = c.Order
+	}
 	w.Env = map[string]string{}
 	eff := map[string]string{}
 	for _, s := range c16Settings {
@@ -375,6 +381,9 @@ func (c *CaseC16) evalNoDatabase(ob *Obs) []Finding {
 	mk := func(noDB bool) World {
 		w := noFaultWorld()
 		w.Zone, w.ClockUnixNano = c.Zone, c.Clock
+		if c.Order.Mode != "" {
+			w.Order = c.Order
+		}
 		w.Env = map[string]string{}
 		w.Files = []FileSpec{
 			{Path: "log.yaml", Kind: "file", Data: log, Plan: ReadPlan{FaultAt: -1}},
